@@ -71,7 +71,9 @@ def nc_style(rng, inp):
         vars_[rng.choice(["lat", "lon"])] = False
         vars_["location"] = True
     fits = max(inp["times"]) < 2 ** 31 - 1
-    return {"enc": rng.sample(gen.NC_MISSING_ENC, rng.randint(1, 4)), "order": order, "vars": vars_,
+    # every on-disk flavour of NetCDF the library writes (HDF5-based, classic, 64-bit offset, CDF-5)
+    fmt_ = rng.choice(["NETCDF4", "NETCDF4", "NETCDF4_CLASSIC", "NETCDF3_CLASSIC", "NETCDF3_64BIT_OFFSET", "NETCDF3_64BIT_DATA"])
+    return {"format": fmt_, "enc": rng.sample(gen.NC_MISSING_ENC, rng.randint(1, 4)), "order": order, "vars": vars_,
             "time_type": "i4" if (fits and rng.random() < 0.5) else "f8", "shuffled": shuffled}
 
 
@@ -346,9 +348,19 @@ def run_text2nc(desc, ctx):
                 ctx.violation("text2nc-dims", "time/leadtime differ", case)
                 continue
             ids = [float(x) for x in arr("location")]
-            if ids != [float(l.id) for l in a.locations]:
+            if sorted(ids) != sorted(float(l.id) for l in a.locations) or len(set(ids)) != len(ids):
                 ctx.violation("text2nc-locations", "ids %s vs %s" % (ids, [l.id for l in a.locations]), case)
                 continue
+            # the output may list the locations in any order: every variable is matched by location id
+            perm = [ids.index(float(l.id)) for l in a.locations]
+            _arr0 = arr
+
+            def arr(name, _arr0=_arr0):
+                v = _arr0(name)
+                dims = f.variables[name].dimensions
+                if "location" in dims:
+                    v = np.take(v, perm, axis=dims.index("location"))
+                return v
             for name, attr in (("lat", "lat"), ("lon", "lon"), ("altitude", "elev")):
                 if not np.allclose(arr(name), np.array([getattr(l, attr) for l in a.locations], float), atol=1e-4):
                     ctx.violation("text2nc-location-metadata|%s" % name, "%s differs" % name, case)
@@ -385,7 +397,9 @@ def run_text2nc(desc, ctx):
                 else:
                     got = arr("ensemble")
                     want = np.array(a.ensemble, float)
-                    if got.shape != want.shape or not np.allclose(np.nan_to_num(got), np.nan_to_num(want), rtol=1e-6):
+                    ctx.count("text2nc_cells", int(want.size))
+                    if got.shape != want.shape or not np.array_equal(np.isnan(got) | (got > 1e30), np.isnan(want)) or \
+                            not np.allclose(np.nan_to_num(np.where(got > 1e30, np.nan, got)), np.nan_to_num(want), rtol=1e-6):
                         ctx.violation("text2nc-values|ensemble", "ensemble differs", case)
             vname = getattr(f, "standard_name", getattr(f, "long_name", None))
             if vname != a.variable.name:
@@ -394,9 +408,34 @@ def run_text2nc(desc, ctx):
             f.close()
         # and verif reads it back as the same dataset
         b = verif.input.get_input(opath)
-        if a.obs is not None and b.obs is not None:
-            if not np.array_equal(np.isnan(a.obs), np.isnan(b.obs)) or not np.allclose(np.nan_to_num(a.obs), np.nan_to_num(b.obs), rtol=1e-6):
-                ctx.violation("text2nc-roundtrip|obs", "reading the converted file gives different observations", case)
+        bid = [float(l.id) for l in b.locations]
+        try:
+            permb = [bid.index(float(l.id)) for l in a.locations]
+        except ValueError:
+            ctx.violation("text2nc-roundtrip|locations", "ids %s vs %s" % (bid, [l.id for l in a.locations]), case)
+            continue
+        fields = [("obs", a.obs, b.obs), ("fcst", a.fcst, b.fcst), ("pit", a.pit, b.pit)]
+        if inp["thresholds"]:
+            fields.append(("cdf", a.threshold_scores, b.threshold_scores))
+        if inp["quantiles"]:
+            fields.append(("x", a.quantile_scores, b.quantile_scores))
+        if inp["members"]:
+            fields.append(("ensemble", a.ensemble, b.ensemble))
+        for o in inp["others"]:
+            try:
+                fields.append((o, a.other_score(o), b.other_score(o)))
+            except Exception:
+                pass
+        for name, xa, xb in fields:
+            if xa is None or xb is None:
+                continue
+            xa = np.array(xa, float)
+            xb = np.take(np.array(xb, float), permb, axis=2)
+            ctx.count("text2nc_cells", int(xa.size))
+            if xa.shape != xb.shape or not np.array_equal(np.isnan(xa), np.isnan(xb)) or \
+                    not np.allclose(np.nan_to_num(xa), np.nan_to_num(xb), rtol=1e-6, atol=1e-6):
+                ctx.violation("text2nc-roundtrip|%s" % name, "reading the converted file back gives different %s values at the same "
+                              "(time, lead time, location id)" % name, case)
 
 
 def run_shard(desc, ctx):
